@@ -1029,7 +1029,12 @@ void destruct_object (object_t * ob) {
 
 #ifdef OLD_ED
   if (ob->interactive && ob->interactive->ed_buffer)
-    save_ed_buffer (ob);
+    {
+      save_ed_buffer (ob);
+      /* as above: the ed callbacks are LPC code and may have destructed us */
+      if (ob->flags & O_DESTRUCTED)
+        return;
+    }
 #else
   if (ob->flags & O_IN_EDIT)
     {
